@@ -471,6 +471,7 @@ pub fn boundary_strategy() -> impl Strategy<Value = BoundaryCase> {
 
 pub fn run(ctx: &Ctx, report: &mut Report) {
     report.push(run_proptest(ctx, "many-keys", ctx.cases(32, 800), 20, many_keys_strategy, exec_many_keys));
+    report.push(run_proptest(ctx, "huge-digest", ctx.cases(1_600, 40_000), 100, huge_digest_strategy, exec_huge_digest));
     report.push(run_proptest(ctx, "generated-states", ctx.cases(6_000, 150_000), 300, case_strategy, exec_mtu));
     report.push(run_proptest(ctx, "boundary-directed", ctx.cases(2_500, 60_000), 200, boundary_strategy, exec_boundary));
 }
@@ -479,6 +480,7 @@ pub fn replay(ctx: &Ctx, sub: &str, case: &serde_json::Value) -> SubResult {
     match sub {
         "boundary-directed" => replay_case::<BoundaryCase, _>(ctx, sub, case, exec_boundary),
         "many-keys" => replay_case::<ManyKeysCase, _>(ctx, sub, case, exec_many_keys),
+        "huge-digest" => replay_case::<HugeDigestCase, _>(ctx, sub, case, exec_huge_digest),
         _ => replay_case::<MtuCase, _>(ctx, sub, case, exec_mtu),
     }
 }
@@ -600,6 +602,116 @@ pub fn replay_max_value(ctx: &Ctx, sub: &str, case: &serde_json::Value) -> SubRe
 }
 
 // ------------------------------------------------------------------------------------------
+// C01 sub-check: a joiner facing hundreds of KB of small, highly compressible entries. Every
+// message goes through the real codec (a message the decoder rejects is a lost message); every
+// complete handshake must advance the joiner's copy until it equals the owner's.
+
+#[derive(Clone, Debug, Serialize, Deserialize)]
+pub struct BulkCase {
+    /// number of entries / 100 (5..=60)
+    pub hundreds: u8,
+    pub value_len: u16,
+    /// 0: the same text in every value, 1: JSON-like text with the index, 2: one repeated letter
+    pub pattern: u8,
+    pub lagging_initiates: bool,
+}
+
+fn codec_round_trip(msg: chitchat::ChitchatMessage) -> Option<chitchat::ChitchatMessage> {
+    use chitchat::Serializable;
+    let mut bytes = Vec::new();
+    msg.serialize(&mut bytes);
+    real_decode(&bytes).ok().map(|(m, _)| m)
+}
+
+pub fn exec_bulk(case: &BulkCase, tally: &mut Tally) -> Result<(), Failure> {
+    with_paused_runtime(async {
+        let n = (case.hundreds as usize).clamp(1, 60) * 100;
+        let vlen = (case.value_len as usize).clamp(1, 600);
+        let fd = FdCfg::default();
+        let hid = simple_id("holder", 0, 9311);
+        let lid = simple_id("joiner", 0, 9312);
+        let mut h = build_node(&hid, "c", std::time::Duration::from_secs(3600), &fd, false, 0).chitchat;
+        let mut l = build_node(&lid, "c", std::time::Duration::from_secs(3600), &fd, false, 0).chitchat;
+        {
+            let ns = h.self_node_state();
+            for i in 0..n {
+                let value: String = match case.pattern % 3 {
+                    0 => "the quick brown fox jumps over the lazy dog ".chars().cycle().take(vlen).collect(),
+                    1 => format!("{{\"shard\":{i},\"state\":\"ready\",\"endpoint\":\"10.0.0.{}:7280\",\"tags\":[\"a\",\"b\"]}}", i % 250).chars().cycle().take(vlen).collect(),
+                    _ => "z".repeat(vlen),
+                };
+                ns.set(format!("service/{i:05}"), value);
+            }
+        }
+        let target = h.self_node_state().max_version();
+        let mut raw_total = 0usize;
+        let mut handshakes = 0;
+        loop {
+            let before = l.node_state(&hid).map(|ns| ns.max_version()).unwrap_or(0);
+            if before == target {
+                break;
+            }
+            if handshakes >= 60 {
+                return Err(Failure::new("C01/bulk-not-converged", format!("after 60 loss-free handshakes the joiner holds the owner's {n} entries of {vlen} bytes only up to version {before} of {target}")));
+            }
+            handshakes += 1;
+            let mut largest = 0usize;
+            let r = guard(|| {
+                let (a, b): (&mut chitchat::Chitchat, &mut chitchat::Chitchat) = if case.lagging_initiates { (&mut l, &mut h) } else { (&mut h, &mut l) };
+                let mut measure = |m: &chitchat::ChitchatMessage| {
+                    use chitchat::Serializable;
+                    largest = largest.max(m.serialized_len());
+                };
+                let syn = a.verif_create_syn_message();
+                measure(&syn);
+                let Some(syn) = codec_round_trip(syn) else { return };
+                let Some(synack) = b.verif_process_message(syn) else { return };
+                measure(&synack);
+                let Some(synack) = codec_round_trip(synack) else { return };
+                let Some(ack) = a.verif_process_message(synack) else { return };
+                measure(&ack);
+                let Some(ack) = codec_round_trip(ack) else { return };
+                b.verif_process_message(ack);
+            });
+            if let Err(p) = r {
+                tally.discard(&format!("panic: {}", p.signature()));
+                return Ok(());
+            }
+            raw_total = raw_total.max(largest);
+            let after = l.node_state(&hid).map(|ns| ns.max_version()).unwrap_or(0);
+            if after <= before {
+                return Err(Failure::new(
+                    "C01/bulk-handshake-without-progress",
+                    format!("handshake {handshakes} (initiated by the {}) did not advance the joiner's copy of the owner (version {before} of {target}; {n} entries of {vlen} compressible bytes; largest datagram {largest} bytes): a message was not decodable or nothing was sent", if case.lagging_initiates { "joiner" } else { "owner" }),
+                ));
+            }
+        }
+        if n * vlen > 262_144 {
+            tally.nontrivial(str_hash(&format!("{case:?}")));
+            tally.label("lag_above_256_KiB");
+        }
+        if handshakes == 1 {
+            tally.label("one_handshake_sufficed");
+        }
+        tally.max("largest_datagram", raw_total as u64);
+        tally.sample(|| serde_json::json!({"entries": n, "value_len": vlen, "pattern": case.pattern % 3, "handshakes": handshakes, "largest_datagram": raw_total}));
+        Ok(())
+    })
+}
+
+pub fn bulk_strategy() -> impl Strategy<Value = BulkCase> {
+    (5u8..=60, prop_oneof![20u16..100, 100u16..400], 0u8..3, any::<bool>()).prop_map(|(hundreds, value_len, pattern, lagging_initiates)| BulkCase { hundreds, value_len, pattern, lagging_initiates })
+}
+
+pub fn run_bulk(ctx: &Ctx, report: &mut Report) {
+    report.push(run_proptest(ctx, "bulk-compressible", ctx.cases(160, 4_000), 60, bulk_strategy, exec_bulk));
+}
+
+pub fn replay_bulk(ctx: &Ctx, sub: &str, case: &serde_json::Value) -> SubResult {
+    replay_case::<BulkCase, _>(ctx, sub, case, exec_bulk)
+}
+
+// ------------------------------------------------------------------------------------------
 // C07 sub-check: a member with a very large number of tiny key-values (the reply is cut by the
 // budget after thousands of entries); an early tombstone whose key sorts last must not be skipped.
 
@@ -648,6 +760,98 @@ pub fn exec_many_keys(case: &ManyKeysCase, tally: &mut Tally) -> Result<(), Fail
         tally.sample(|| serde_json::json!({"keys": n, "truncated": facts.truncated}));
         Ok(())
     })
+}
+
+// ------------------------------------------------------------------------------------------
+// C07 sub-check: the responder's own digest nearly fills the datagram (few members with very
+// long node ids), leaving 100..1,200 bytes for the delta of the SYN-ACK, and it owes the peer
+// more than that.
+
+#[derive(Clone, Debug, Serialize, Deserialize)]
+pub struct HugeDigestCase {
+    /// other members (1..=40)
+    pub members: u8,
+    /// bytes the digest should leave for the delta (100..=1,200; the statement starts at 100)
+    pub room: u16,
+    /// own key-values (each ~300 near-incompressible bytes)
+    pub own_entries: u8,
+    pub seed: u16,
+}
+
+pub fn exec_huge_digest(case: &HugeDigestCase, tally: &mut Tally) -> Result<(), Failure> {
+    with_paused_runtime(async {
+        let m = (case.members as usize).clamp(1, 40);
+        let room = (case.room as usize).clamp(100, 1_200);
+        let fd = FdCfg::default();
+        let self_id = simple_id("self", 1, 9000);
+        let mut node = build_node(&self_id, "cluster", std::time::Duration::from_secs(3600), &fd, false, 0).chitchat;
+        {
+            let ns = node.self_node_state();
+            for i in 0..(case.own_entries as usize % 12 + 4) {
+                ns.set(format!("own{i:02}"), expand_value(4, 300, case.seed as u64 + i as u64));
+            }
+        }
+        let peer = WId::v4("peer", 0, 9100);
+        // digest length = 2 + sum(id + 24): self, peer, m members; the members' node ids are padded
+        // so that the digest leaves exactly `room` bytes (the last member absorbs the remainder)
+        let fixed = 2 + (WId::from_real(&self_id).encoded_len() + 24) + (peer.encoded_len() + 24);
+        let target = MAX_DATAGRAM - 4 - room;
+        let per_member_fixed = WId::v4("", 0, 1).encoded_len() + 24;
+        let Some(ids_total) = target.checked_sub(fixed + m * per_member_fixed) else {
+            tally.discard("members do not fit");
+            return Ok(());
+        };
+        let base = ids_total / m;
+        if base < 4 || base + m > 65_535 {
+            tally.discard("node id length out of range");
+            return Ok(());
+        }
+        let mut ids: Vec<WId> = Vec::new();
+        for i in 0..m {
+            let len = if i + 1 == m { ids_total - base * (m - 1) } else { base };
+            let mut node_id = format!("{i:02}-");
+            while node_id.len() < len {
+                node_id.push((b'a' + ((i + node_id.len()) % 26) as u8) as char);
+            }
+            node_id.truncate(len);
+            ids.push(WId::v4(&node_id, 0, 9200 + i as u16));
+        }
+        let mut digest: Vec<WNodeDigest> = ids.iter().map(|id| WNodeDigest { id: id.clone(), heartbeat: 1, last_gc: 0, max_version: 0 }).collect();
+        digest.push(WNodeDigest { id: peer.clone(), heartbeat: 1, last_gc: 0, max_version: 0 });
+        let msg = syn_message(&digest)?;
+        let reply = match guard(|| node.verif_process_message(msg)) {
+            Ok(Some(r)) => r,
+            Ok(None) => return vio("C07/no-reply", "no reply".into()),
+            Err(p) => return vio(&format!("C07/{}", p.signature()), format!("answering a SYN with a digest that leaves {room} bytes panicked: {}", p.describe())),
+        };
+        use chitchat::Serializable;
+        let total = reply.serialized_len();
+        let own_digest_len = match chitchat::verif::verif_describe(&reply) {
+            chitchat::verif::VerifMessage::SynAck { digest, .. } => 2 + digest.iter().map(|d| WId::from_real(&d.chitchat_id).encoded_len() + 24).sum::<usize>(),
+            _ => return vio("C07/no-reply", "reply to a SYN is not a SYN-ACK".into()),
+        };
+        let left = (MAX_DATAGRAM - 4).saturating_sub(own_digest_len);
+        if left < 100 {
+            tally.discard("digest leaves less than 100 bytes");
+            return Ok(());
+        }
+        if total > MAX_DATAGRAM {
+            return vio("C07/oversize", format!("SYN-ACK of {total} bytes > 65,507: own digest of {own_digest_len} bytes ({m} members with node ids of ~{base} bytes) leaves {left} bytes (>= 100) for the delta"));
+        }
+        let copies = all_copies(&node);
+        let facts = check_reply(&reply, MAX_DATAGRAM, &copies, &digest, &[], tally, &format!("digest leaves {left} bytes"))?;
+        if facts.truncated {
+            tally.label("truncated_by_huge_digest");
+        }
+        tally.nontrivial(str_hash(&format!("{case:?}")));
+        tally.max("own_digest_len", own_digest_len as u64);
+        tally.sample(|| serde_json::json!({"members": m, "digest_len": own_digest_len, "room": left, "reply_len": total}));
+        Ok(())
+    })
+}
+
+pub fn huge_digest_strategy() -> impl Strategy<Value = HugeDigestCase> {
+    (1u8..=40, prop_oneof![2 => 100u16..130, 3 => 100u16..1_200], any::<u8>(), any::<u16>()).prop_map(|(members, room, own_entries, seed)| HugeDigestCase { members, room, own_entries, seed })
 }
 
 pub fn many_keys_strategy() -> impl Strategy<Value = ManyKeysCase> {
